@@ -3,6 +3,7 @@ package main
 import (
 	"fmt"
 	"go/types"
+	"math/big"
 	"sort"
 	"strings"
 
@@ -310,6 +311,7 @@ type State struct {
 	modHeaps  map[string]bool // heaps havocked wholesale (frame bookkeeping)
 	infeasible bool
 	storeLog  *storeLog
+	concreteAlloc bool
 }
 
 func (s *State) clone() *State {
@@ -319,7 +321,7 @@ func (s *State) clone() *State {
 		ghost: make(map[string]T, len(s.ghost)), ev: s.ev, next: s.next,
 		defers: append([]deferred{}, s.defers...), cut: make(map[*ssa.BasicBlock]bool, len(s.cut)),
 		closures: make(map[string]*FnVal, len(s.closures)), panicking: s.panicking, recovered: s.recovered,
-		prevBlock: s.prevBlock, modHeaps: make(map[string]bool, len(s.modHeaps)), storeLog: s.storeLog,
+		prevBlock: s.prevBlock, modHeaps: make(map[string]bool, len(s.modHeaps)), storeLog: s.storeLog, concreteAlloc: s.concreteAlloc,
 	}
 	for k, v := range s.vals {
 		n.vals[k] = v
@@ -368,6 +370,15 @@ func (s *State) snapshot() *State {
 	return n
 }
 
+// define assumes c = t where c is a fresh constant (a sliceable definition).
+func (s *State) define(c T, t T) {
+	n := 1
+	if s.ev != nil {
+		n = s.ev.n + 1
+	}
+	s.ev = &Event{Kind: EvAssume, Text: eq(c, t).S, Def: c.S, prev: s.ev, n: n}
+}
+
 func (s *State) assume(t T) {
 	if t.S == "true" {
 		return
@@ -393,7 +404,7 @@ func (s *State) setHeap(name string, v T) {
 	// name long store chains: introduce a constant to keep terms small
 	if len(v.S) > 200 {
 		c := fresh(name, v.Sort)
-		s.assume(eq(c, v))
+		s.define(c, v)
 		v = c
 	}
 	s.heaps[name] = v
@@ -427,7 +438,7 @@ func (s *State) name(prefix string, t T) T {
 		return t
 	}
 	c := fresh(prefix, t.Sort)
-	s.assume(eq(c, t))
+	s.define(c, t)
 	return c
 }
 
@@ -625,6 +636,11 @@ func (s *State) store(a *Addr, v T) {
 
 // allocate returns a fresh non-nil reference distinct from all earlier ones.
 func (s *State) allocate(prefix string) T {
+	if n, ok := smallConstBig(s.next); ok {
+		r := s.next
+		s.next = mkBig(new(big.Int).Add(n, big.NewInt(1)))
+		return r
+	}
 	r := fresh(prefix, SInt)
 	s.assume(eq(r, s.next))
 	nn := fresh("next", SInt)
@@ -635,6 +651,10 @@ func (s *State) allocate(prefix string) T {
 
 // bumpNext models allocation by a callee: next grows by an unknown amount.
 func (s *State) bumpNext() {
+	if n, ok := smallConstBig(s.next); ok && s.concreteAlloc {
+		s.next = mkBig(new(big.Int).Add(n, big.NewInt(1000000)))
+		return
+	}
 	nn := fresh("next", SInt)
 	s.assume(app(SBool, ">=", nn, s.next))
 	s.next = nn
